@@ -39,6 +39,37 @@ func descJSON(mt, dig string, size int, extra string) string {
 	return fmt.Sprintf(`{"mediaType":%q,"digest":%q,"size":%d%s}`, mt, dig, size, extra)
 }
 
+const extRepo = "ext/files"
+
+// extReg is the registry that serves foreign layer URLs (-1 none).
+func (c *Case) extReg() int {
+	if i := c.ExtOnReg - 1; i >= 0 && i < len(c.Hosts) && c.Hosts[i].Kind == "registry" && !c.Hosts[i].Unused {
+		return i
+	}
+	return -1
+}
+
+func (c *Case) hasExt() bool { return c.extHost() >= 0 || c.extReg() >= 0 }
+
+// extURLs lists the URLs of the foreign layer of (src, repo) in the order the manifest gives them.
+func (c *Case) extURLs(ct *content) []string {
+	var out []string
+	if c.ExtBadFirst {
+		if e := c.extHost(); e >= 0 {
+			out = append(out, c.naturalScheme(e)+"://"+c.Hosts[e].Name+"/files/gone")
+		} else if r := c.extReg(); r >= 0 {
+			out = append(out, c.naturalScheme(r)+"://"+c.Hosts[r].Name+"/v2/"+extRepo+"/blobs/sha256:0000000000000000000000000000000000000000000000000000000000000000")
+		}
+	}
+	if r := c.extReg(); r >= 0 {
+		out = append(out, c.naturalScheme(r)+"://"+c.Hosts[r].Name+"/v2/"+extRepo+"/blobs/"+ct.Digs[3])
+	}
+	if e := c.extHost(); e >= 0 {
+		out = append(out, c.naturalScheme(e)+"://"+c.Hosts[e].Name+ct.ExtPath)
+	}
+	return out
+}
+
 func (c *Case) extHost() int {
 	for i := range c.Hosts {
 		if c.Hosts[i].Kind == "external" {
@@ -70,10 +101,14 @@ func (c *Case) mkContent(src, repo int) *content {
 		ct.ManDig[name] = rm.Digest("sha256", []byte(body))
 	}
 	put("v1", fmt.Sprintf(`{"schemaVersion":2,"mediaType":%q,"config":%s,"layers":[%s,%s]}`, mtOCIManifest, cfg, l0, l1))
-	if e := c.extHost(); e >= 0 {
+	if c.hasExt() {
 		ct.ExtPath = fmt.Sprintf("/files/h%dr%d", src, repo)
-		u := c.naturalScheme(e) + "://" + c.Hosts[e].Name + ct.ExtPath
-		lf := descJSON(mtForeign, ct.Digs[3], len(ct.Blobs[3]), fmt.Sprintf(`,"urls":[%q]`, u))
+		us := c.extURLs(ct)
+		q := make([]string, len(us))
+		for i, u := range us {
+			q[i] = fmt.Sprintf("%q", u)
+		}
+		lf := descJSON(mtForeign, ct.Digs[3], len(ct.Blobs[3]), `,"urls":[`+strings.Join(q, ",")+`]`)
 		put("ext", fmt.Sprintf(`{"schemaVersion":2,"mediaType":%q,"config":%s,"layers":[%s,%s]}`, mtOCIManifest, cfg, l0, lf))
 	}
 	ec := descJSON(mtEmpty, rm.Digest("sha256", emptyJSON), 2, `,"data":"e30="`)
@@ -81,6 +116,9 @@ func (c *Case) mkContent(src, repo int) *content {
 	put("sig", fmt.Sprintf(`{"schemaVersion":2,"mediaType":%q,"artifactType":%q,"config":%s,"layers":[%s],"subject":%s}`, mtOCIManifest, sigType, ec, l0, subj))
 	put("sig2", fmt.Sprintf(`{"schemaVersion":2,"mediaType":%q,"artifactType":%q,"config":%s,"layers":[%s],"subject":%s,"annotations":{"c11":"second"}}`, mtOCIManifest, sigType+".b", ec, l0, subj))
 	put("tmp", fmt.Sprintf(`{"schemaVersion":2,"mediaType":%q,"config":%s,"layers":[%s],"annotations":{"c11":"tmp"}}`, mtOCIManifest, cfg, l0))
+	plat := func(arch string) string { return fmt.Sprintf(`,"platform":{"architecture":%q,"os":"linux"}`, arch) }
+	put("idx", fmt.Sprintf(`{"schemaVersion":2,"mediaType":%q,"manifests":[%s,%s]}`, mtOCIIndex,
+		descJSON(mtOCIManifest, ct.ManDig["v1"], len(ct.Man["v1"]), plat("amd64")), descJSON(mtOCIManifest, ct.ManDig["tmp"], len(ct.Man["tmp"]), plat("arm64"))))
 	return ct
 }
 
@@ -96,7 +134,9 @@ func (ct *content) store(h *rm.Host, repo string, referrersAPI bool) {
 			r.Manifests[ct.ManDig[n]] = &rm.Manifest{MediaType: mtOCIManifest, Body: b}
 		}
 	}
-	for _, t := range []string{"v1", "a1", "a2", "a3"} {
+	r.Manifests[ct.ManDig["idx"]] = &rm.Manifest{MediaType: mtOCIIndex, Body: ct.Man["idx"]}
+	r.Tags["idx"] = ct.ManDig["idx"]
+	for _, t := range []string{"v1", "a1", "a2", "a3", "latest"} {
 		r.Tags[t] = ct.ManDig["v1"]
 	}
 	if d, ok := ct.ManDig["ext"]; ok {
@@ -175,7 +215,8 @@ func buildWorld(c *Case) (*world, error) {
 		case 201, 405:
 			mh.Feat.AnonMountStatus = h.AnonMount
 		}
-		mh.Feat.TagDelete = true
+		mh.Feat.TagDelete = !h.NoTagDelete
+		mh.Feat.HeadNoDigest = h.HeadNoDigest
 		mh.Feat.TagListNoRepo404 = true
 		mh.Feat.Referrers = h.Referrers
 		mh.Feat.ReferrersPage = h.RefPage
@@ -206,6 +247,9 @@ func buildWorld(c *Case) (*world, error) {
 			src = h.MirrorOf
 		}
 		for r, rn := range repoNames {
+			if h.PathPrefix != "" {
+				rn = h.PathPrefix + "/" + rn // config pathPrefix: the mirror keeps the repositories inside a namespace
+			}
 			c.mkContent(src, r).store(w.mh[i], rn, h.Referrers)
 		}
 	}
@@ -267,6 +311,17 @@ func buildWorld(c *Case) (*world, error) {
 	for i := range w.mh {
 		if w.mh[i] != nil {
 			w.mh[i].Intercept = w.intercept
+		}
+	}
+	if r := c.extReg(); r >= 0 {
+		for j := range c.Hosts {
+			if c.Hosts[j].Kind != "registry" {
+				continue
+			}
+			for k := range repoNames {
+				ct := c.mkContent(j, k)
+				w.mh[r].Repo(extRepo).Blobs[ct.Digs[3]] = ct.Blobs[3]
+			}
 		}
 	}
 	for _, fs := range c.Faults {
@@ -392,6 +447,16 @@ func (w *world) challenge(owner int, ch ChallengeSpec, e *rm.Entry, insufficient
 		r.Header.Add("WWW-Authenticate", basic)
 	case "bearer":
 		r.Header.Add("WWW-Authenticate", bearer)
+	case "bearer+bearer":
+		// the same scheme twice, with different realms on the same token host
+		realm, _ := w.realm(owner, ch)
+		second := fmt.Sprintf(`Bearer realm="%s?alt=1",service="svc-alt-%d"`, realm, owner)
+		if ch.Variant%2 == 0 {
+			r.Header.Add("WWW-Authenticate", bearer+", "+second)
+		} else {
+			r.Header.Add("WWW-Authenticate", bearer)
+			r.Header.Add("WWW-Authenticate", second)
+		}
 	case "basic+bearer":
 		if ch.Variant%2 == 0 {
 			r.Header.Add("WWW-Authenticate", basic+", "+bearer)
@@ -459,6 +524,22 @@ func (w *world) tokenEndpoint(e *rm.Entry, req *http.Request) *rm.Resp {
 		return jsonErr(404, "NOT_FOUND", "no such token endpoint")
 	}
 	spec := w.c.Hosts[k].Auth
+	// the token service moved: it answers with a redirect to another host
+	if x := spec.TokRedir - 1; w.validHost(x) && w.c.Hosts[x].Name != e.Host && !strings.Contains(e.RawQuery, "rd=1") {
+		st := spec.TokRedirSt
+		switch st {
+		case 301, 302, 303, 307, 308:
+		default:
+			st = 307
+		}
+		q := e.RawQuery
+		if q != "" {
+			q += "&"
+		}
+		r := newResp(st)
+		r.Header.Set("Location", w.c.naturalScheme(x)+"://"+w.c.Hosts[x].Name+e.Path+"?"+q+"rd=1")
+		return r
+	}
 	acct := w.c.account(k)
 	var scopes []string
 	authed, anon := false, false
@@ -649,6 +730,14 @@ func (w *world) intercept(m *rm.Model, h *rm.Host, e *rm.Entry, req *http.Reques
 				r.Body = b
 				return r
 			}
+		}
+		return nil
+	case "storage":
+		// a second hop: this storage host redirects on to another one
+		if w.validHost(hs.RedirectTo) && hs.RedirectTo != i && w.c.Hosts[hs.RedirectTo].Kind == "storage" && (e.Method == "GET" || e.Method == "HEAD") {
+			r := newResp(307)
+			r.Header.Set("Location", w.c.naturalScheme(hs.RedirectTo)+"://"+w.c.Hosts[hs.RedirectTo].Name+e.Path)
+			return r
 		}
 		return nil
 	case "link":
